@@ -144,9 +144,15 @@ def finish(ctx, level="model_checking"):
     ctx.cov["known_finding_counterexamples"] = sum(len(vs) for _, vs in known.values())
     ctx.cov["known_findings_matched"] = sorted(known)
     status = 0
-    for h, vs in sorted(unknown.items()):
+    confirmed = 0
+    for n, (h, vs) in enumerate(sorted(unknown.items())):
         path = write_replay(ctx, vs[0])
         print("VIOLATION property=%s replay=%s" % (ctx.pid, path))
+        if n < 3 and not os.environ.get("VERIF_NO_REPLAY_CONFIRM"):
+            # re-execute the case once from its replay file in a fresh process (determinism check)
+            ok = confirm_replay(ctx.pid, path)
+            confirmed += 1 if ok else 0
+            print("  replay in a fresh process: %s" % ("reproduced" if ok else "NOT reproduced (see the replay file; the violation line stands)"))
         print("  what: %s  (%d counterexamples with this signature)" % (vs[0]["what"], len(vs)))
         print("  sig: %s" % json.dumps(vs[0]["sig"], sort_keys=True, default=str))
         status = 1
@@ -161,6 +167,17 @@ def finish(ctx, level="model_checking"):
         c.get("distinct_outcomes"), c.get("traces_validated_against_impl"),
         time.time() - ctx.t0, path))
     return status
+
+
+def confirm_replay(pid, path):
+    import subprocess
+    try:
+        r = subprocess.run([os.path.join(VERIF, "check"), pid, "--replay", path], cwd=VERIF, capture_output=True,
+                           text=True, timeout=600, start_new_session=True,
+                           env=dict(os.environ, VERIF_NO_REPLAY_CONFIRM="1"))
+        return r.returncode == 1
+    except Exception:  # noqa: BLE001
+        return False
 
 
 # ------------------------------------------------------------------ worker pool
